@@ -37,6 +37,43 @@ def run (op impl : String) : Ans :=
                   | none => { model := m, verdict := "ok", tags := tags }
                   | some c => { model := m, verdict := "FAIL:" ++ c, tags := ("v:" ++ c) :: tags })
            | _ => { model := m, verdict := "skip", tags := "write-err" :: tags })
+  | ["rdh", hx] =>
+    -- wire bytes: the client's header set is what THIS driver parses from the bytes (strict parser of C25), the
+    -- implementation went through the real ReadRequest; unreadable / non-strict texts are outside this stream
+    (match bytesOfHex hx with
+     | none => { model := "bad-op", verdict := "skip" }
+     | some raw =>
+       match headLines (raw.length + 1) raw with
+       | some (_ :: fls, []) =>
+         (match parseFields fls with
+          | none => { model := "unparsed-wire", verdict := "skip", tags := ["wire-nonstrict"] }
+          | some wf =>
+            let h := wireHeader wf
+            let bad := wf.any fun f => [kContentLength, kTransferEncoding, kTrailer, [80, 114, 97, 103, 109, 97]].contains (canon f.1)
+            if bad || !keysCanon h || !distinctKeys (h.map (·.1)) || (wf.filter fun f => canon f.1 == kHost).map (·.2) != [[97]] then
+              { model := "unmodelled-wire", verdict := "skip", tags := ["wire-unmodelled"] }
+            else
+              let h' := hopRemove BfeVerif.Generated.C26.hopHeaders h
+              let m := renderW (true, writeHop h')
+              let conn := lookup h kConnection
+              let tags := ["wire", "nt"] ++ (if conn.length ≥ 2 then ["conn-multiline"] else []) ++
+                (match conn with | v :: _ :: _ => if eqFold (trimOWS v) sClose then ["conn-close-first"] else [] | _ => []) ++
+                (if (connTokens h).isEmpty then [] else ["conn-tokens"]) ++ (if h' != h then ["removed"] else [])
+              if impl == "reject" then { model := m, verdict := "FAIL:wire-rejected", tags := tags }
+              else match impl.splitOn " " with
+                | ["ok", ohx] =>
+                  (match bytesOfHex ohx with
+                   | none => { model := m, verdict := "FAIL:unreadable", tags := tags }
+                   | some bs =>
+                     match rfcOne bs with
+                     | .error _ => { model := m, verdict := "FAIL:wire-unparsable-output", tags := tags }
+                     | .ok p =>
+                       let fs := p.fields.filter fun f => !(f.1 == kHost || f.1 == kContentLength)
+                       match violation h fs with
+                       | none => { model := m, verdict := "ok", tags := tags }
+                       | some c => { model := m, verdict := "FAIL:" ++ c, tags := ("v:" ++ c) :: tags })
+                | _ => { model := m, verdict := "skip", tags := "write-err" :: tags })
+       | _ => { model := "unparsed-wire", verdict := "skip", tags := ["wire-nonstrict"] })
   | _ => { model := "bad-op", verdict := "skip" }
 
 end BfeVerif.C26
